@@ -1,3 +1,389 @@
-use super::*; use crate::H; use elliptic_curve::hash2curve::ExpandMsg; use zkryptium::bbsplus::ciphersuites::BbsCiphersuite;
-pub fn c03<CS: BbsCiphersuite>(_h: &mut H) where CS::Expander: for<'a> ExpandMsg<'a> {}
-pub fn c04<CS: BbsCiphersuite>(_h: &mut H) where CS::Expander: for<'a> ExpandMsg<'a> {}
+// C03 (proof completeness for every disclosure choice), C04 (proof soundness)
+use super::*;
+use crate::ops::*;
+use crate::H;
+use bls12_381_plus::{G1Projective, Scalar};
+use elliptic_curve::group::Curve;
+use elliptic_curve::hash2curve::ExpandMsg;
+use zkryptium::bbsplus::ciphersuites::BbsCiphersuite;
+use zkryptium::bbsplus::generators::Generators;
+use zkryptium::bbsplus::keys::BBSplusPublicKey;
+use zkryptium::utils::message::bbsplus_message::BBSplusMessage;
+use zkryptium::utils::util::bbsplus_utils::{hash_to_scalar, i2osp};
+
+pub fn rand_scalar_bytes(h: &mut H) -> Vec<u8> {
+    // a canonical scalar: top byte < 0x73
+    let mut b = h.rng.bytes(32);
+    b[0] %= 0x73;
+    b
+}
+
+pub fn rand_tape(h: &mut H, n: usize) -> Vec<Vec<u8>> {
+    (0..n).map(|_| rand_scalar_bytes(h)).collect()
+}
+
+/// one honest proof: generate (inject or record tape), check length, round trip, verify
+pub fn honest_proof<CS: BbsCiphersuite>(
+    h: &mut H,
+    pk: &BBSplusPublicKey,
+    sig: &[u8],
+    hdr: Option<&[u8]>,
+    ph: Option<&[u8]>,
+    msgs: &[Vec<u8>],
+    idx_given: &[usize],
+    inject: bool,
+) -> Option<Pok<CS>>
+where
+    CS::Expander: for<'a> ExpandMsg<'a>,
+{
+    let l = msgs.len();
+    let mut d: Vec<usize> = idx_given.to_vec();
+    d.sort();
+    d.dedup();
+    let u = l - d.len();
+    let tape = if inject { rand_tape(h, 5 + u) } else { vec![] };
+    h.stat(if inject { "tape.inject" } else { "tape.record" });
+    h.stat(&format!("proof.L={}.R={}", l, d.len()));
+    let (p, draws) = proofgen::<CS>(h, pk, sig, hdr, ph, Some(msgs), Some(idx_given), tape);
+    let gid = h.last();
+    h.expect(draws.len() == 5 + u, "C03.draws", "proof_gen did not draw 5 + U scalars", &[gid]);
+    h.expect(p.is_ok(), "C03.gen", "proof_gen failed on a valid signature and disclosure set", &[gid]);
+    let p = p.ok()?;
+    let pb = p.to_bytes();
+    h.expect(pb.len() == 272 + 32 * u, "C03.len", "proof length is not 272 + 32*U", &[gid]);
+    let dd = dec(h, "proof", &pb);
+    let did = h.last();
+    h.expect(matches!(&dd, Out::Ok(v) if *v == pb), "C03.roundtrip", "proof does not survive from_bytes(to_bytes)", &[gid, did]);
+    let p2 = Pok::<CS>::from_bytes(&pb).ok()?;
+    let dm = pick_msgs(msgs, &d);
+    let v = proofverify::<CS>(h, pk, &p2, hdr, ph, Some(&dm), Some(&d));
+    let vid = h.last();
+    h.expect(v.is_ok(), "C03.verify", "honest proof does not verify", &[gid, vid]);
+    Some(p2)
+}
+
+pub fn c03<CS: BbsCiphersuite>(h: &mut H)
+where
+    CS::Expander: for<'a> ExpandMsg<'a>,
+{
+    let thorough = h.tier_thorough;
+    let maxl = if thorough { 8 } else { 4 };
+    let (sk, pk) = rand_keypair::<CS>(h);
+    for l in 0..=maxl {
+        let msgs = rand_msgs(h, l);
+        let hdr = rand_header(h);
+        let s = match sign::<CS>(h, &sk, &pk, hdr.as_deref(), Some(&msgs)).ok() {
+            Some(s) => s.to_bytes(),
+            None => continue,
+        };
+        for (k, d) in subsets(l).into_iter().enumerate() {
+            let ph = header_of_class(h, k + l);
+            honest_proof::<CS>(h, &pk, &s, hdr.as_deref(), ph.as_deref(), &msgs, &d, k % 3 != 2);
+        }
+    }
+    // sampled larger L, unsorted / duplicated index lists, None arguments
+    let big: &[usize] = if thorough { &[11, 32, 255, 256, 300] } else { &[11, 40] };
+    for &l in big {
+        let (sk, pk) = rand_keypair::<CS>(h);
+        let msgs = rand_msgs(h, l);
+        let hdr = rand_header(h);
+        if let Some(s) = sign::<CS>(h, &sk, &pk, hdr.as_deref(), Some(&msgs)).ok() {
+            let sb = s.to_bytes();
+            let reps = if thorough { 4 } else { 2 };
+            for r in 0..reps {
+                let mut d = rand_subset(h, l);
+                if r % 2 == 1 && d.len() > 1 {
+                    // unsorted with duplicates: the prover sorts and dedups
+                    d.reverse();
+                    let x = d[0];
+                    d.push(x);
+                }
+                let ph = rand_header(h);
+                honest_proof::<CS>(h, &pk, &sb, hdr.as_deref(), ph.as_deref(), &msgs, &d, r % 2 == 0);
+            }
+        }
+    }
+    // absent lists: proof_gen(None, None) for a signature on no messages
+    let (sk, pk) = rand_keypair::<CS>(h);
+    if let Some(s) = sign::<CS>(h, &sk, &pk, None, None).ok() {
+        let tape = rand_tape(h, 5);
+        let (p, _) = proofgen::<CS>(h, &pk, &s.to_bytes(), None, None, None, None, tape);
+        let gid = h.last();
+        h.expect(p.is_ok(), "C03.gen_none", "proof_gen with absent lists failed", &[gid]);
+        if let Some(p) = p.ok() {
+            let v = proofverify::<CS>(h, &pk, &p, None, None, None, None);
+            h.expect(v.is_ok(), "C03.verify_none", "proof with absent lists does not verify", &[gid, h.last()]);
+            let v = proofverify::<CS>(h, &pk, &p, Some(&[]), Some(&[]), Some(&[]), Some(&[]));
+            h.expect(v.is_ok(), "C03.verify_empty", "absent != empty in proof_verify", &[gid, h.last()]);
+        }
+    }
+}
+
+fn flip(b: &[u8], bit: usize) -> Vec<u8> {
+    let mut v = b.to_vec();
+    v[bit / 8] ^= 0x80 >> (bit % 8);
+    v
+}
+
+fn expect_reject<CS: BbsCiphersuite>(
+    h: &mut H,
+    class: &str,
+    pk: &BBSplusPublicKey,
+    pb: &[u8],
+    hdr: Option<&[u8]>,
+    ph: Option<&[u8]>,
+    dm: &[Vec<u8>],
+    d: &[usize],
+) where
+    CS::Expander: for<'a> ExpandMsg<'a>,
+{
+    h.stat(&format!("C04.edit.{}", class));
+    let dd = dec(h, "proof", pb);
+    let did = h.last();
+    h.expect(!dd.is_panic(), "C04.dec_panic", "proof decoder panicked", &[did]);
+    if !dd.is_ok() {
+        return;
+    }
+    if let Ok(p) = Pok::<CS>::from_bytes(pb) {
+        let v = proofverify::<CS>(h, pk, &p, hdr, ph, Some(dm), Some(d));
+        let vid = h.last();
+        h.expect(!v.is_ok(), &format!("C04.{}", class), "proof_verify accepted an altered statement or proof", &[did, vid]);
+    }
+}
+
+/// the verifier's own B_v and domain recomputed from public API pieces
+pub fn verifier_bv<CS: BbsCiphersuite>(
+    pk: &BBSplusPublicKey,
+    hdr: Option<&[u8]>,
+    l: usize,
+    d: &[usize],
+    dm: &[Vec<u8>],
+    api: &[u8],
+) -> (G1Projective, Scalar, Vec<G1Projective>)
+where
+    CS::Expander: for<'a> ExpandMsg<'a>,
+{
+    let gens = Generators::create::<CS>(l + 1, Some(api));
+    let q1 = gens.values[0];
+    let hs: Vec<G1Projective> = gens.values[1..].to_vec();
+    let header = hdr.unwrap_or(b"");
+    let mut dom: Vec<u8> = Vec::new();
+    dom.extend_from_slice(&pk.to_bytes());
+    dom.extend_from_slice(&i2osp::<8>(l));
+    dom.extend_from_slice(&q1.to_affine().to_compressed());
+    for p in &hs {
+        dom.extend_from_slice(&p.to_affine().to_compressed());
+    }
+    dom.extend_from_slice(api);
+    dom.extend_from_slice(&i2osp::<8>(header.len()));
+    dom.extend_from_slice(header);
+    let domain = hash_to_scalar::<CS>(&dom, &[api, CS::H2S].concat()).unwrap();
+    let ms = BBSplusMessage::messages_to_scalar::<CS>(dm, api).unwrap();
+    let mut bv = gens.g1_base_point + q1 * domain;
+    for (k, &i) in d.iter().enumerate() {
+        bv += hs[i] * ms[k].value;
+    }
+    (bv, domain, hs)
+}
+
+/// challenge exactly as the verifier computes it
+pub fn challenge<CS: BbsCiphersuite>(
+    d: &[usize],
+    dm: &[Vec<u8>],
+    pts: [&G1Projective; 5],
+    domain: &Scalar,
+    ph: Option<&[u8]>,
+    api: &[u8],
+) -> Scalar
+where
+    CS::Expander: for<'a> ExpandMsg<'a>,
+{
+    let ms = BBSplusMessage::messages_to_scalar::<CS>(dm, api).unwrap();
+    let ph = ph.unwrap_or(b"");
+    let mut c: Vec<u8> = Vec::new();
+    c.extend_from_slice(&i2osp::<8>(d.len()));
+    for (i, m) in d.iter().zip(ms.iter()) {
+        c.extend_from_slice(&i2osp::<8>(*i));
+        c.extend_from_slice(&m.value.to_be_bytes());
+    }
+    for p in pts {
+        c.extend_from_slice(&p.to_affine().to_compressed());
+    }
+    c.extend_from_slice(&domain.to_be_bytes());
+    c.extend_from_slice(&i2osp::<8>(ph.len()));
+    c.extend_from_slice(ph);
+    hash_to_scalar::<CS>(&c, &[api, CS::H2S].concat()).unwrap()
+}
+
+/// Degenerate-element forgeries assembled from public information only (DESIGN F1).
+fn forgeries<CS: BbsCiphersuite>(h: &mut H)
+where
+    CS::Expander: for<'a> ExpandMsg<'a>,
+{
+    let (_sk, pk) = rand_keypair::<CS>(h);
+    let api = CS::API_ID;
+    for (r, u) in [(0usize, 0usize), (1, 0), (2, 3), (0, 4), (3, 1)] {
+        let l = r + u;
+        let d: Vec<usize> = (0..r).map(|i| i * l / r.max(1)).collect();
+        let undisclosed: Vec<usize> = (0..l).filter(|i| !d.contains(i)).collect();
+        let dm: Vec<Vec<u8>> = (0..r).map(|i| format!("claimed message {}", i).into_bytes()).collect();
+        let hdr = rand_header(h);
+        let ph = rand_header(h);
+        let (bv, domain, hs) = verifier_bv::<CS>(&pk, hdr.as_deref(), l, &d, &dm, api);
+        let p1 = Generators::create::<CS>(1, Some(api)).g1_base_point;
+        let q1 = Generators::create::<CS>(1, Some(api)).values[0];
+        let id = G1Projective::IDENTITY;
+        let cands: Vec<(&str, G1Projective)> = vec![("O", id), ("Bv", bv), ("P1", p1), ("Q1", q1), ("-Bv", -bv)];
+        for (an, abar) in &cands {
+            for (bn, bbar) in &cands {
+                for (dn, dp) in &cands {
+                    // keep the family small: all combinations involving an identity, plus diagonals
+                    let interesting = *an == "O" || *bn == "O" || *dn == "O" || (an == bn && bn == dn);
+                    if !interesting {
+                        continue;
+                    }
+                    let e_cap = Scalar::from(7u64);
+                    let r1_cap = Scalar::from(11u64);
+                    let m_cap: Vec<Scalar> = (0..u).map(|j| Scalar::from(13u64 + j as u64)).collect();
+                    // strategy A (F1): T2 independent of c: r3^ = -c cancels c*Bv when D = Bv
+                    // T1 = c*Bbar + e^*Abar + r1^*D ; with Bbar = O it does not depend on c either
+                    // we solve by fixing T1, T2 from c-free terms, hashing, then setting r3^.
+                    let t2_free: G1Projective = undisclosed.iter().zip(m_cap.iter()).fold(id, |acc, (&j, m)| acc + hs[j] * m);
+                    let t1_free = abar * e_cap + dp * r1_cap;
+                    // guess: T1 = t1_free (exact when Bbar = O), T2 = t2_free (exact when D = Bv and r3^ = -c,
+                    // or when D = O and Bv-term is ignored)
+                    let c = challenge::<CS>(&d, &dm, [abar, bbar, dp, &t1_free, &t2_free], &domain, ph.as_deref(), api);
+                    for r3_cap in [-c, Scalar::ZERO, c] {
+                        let mut pb: Vec<u8> = Vec::new();
+                        pb.extend_from_slice(&abar.to_affine().to_compressed());
+                        pb.extend_from_slice(&bbar.to_affine().to_compressed());
+                        pb.extend_from_slice(&dp.to_affine().to_compressed());
+                        pb.extend_from_slice(&e_cap.to_be_bytes());
+                        pb.extend_from_slice(&r1_cap.to_be_bytes());
+                        pb.extend_from_slice(&r3_cap.to_be_bytes());
+                        for m in &m_cap {
+                            pb.extend_from_slice(&m.to_be_bytes());
+                        }
+                        pb.extend_from_slice(&c.to_be_bytes());
+                        h.stat(&format!("C04.forgery.{}{}{}", an, bn, dn));
+                        let dd = dec(h, "proof", &pb);
+                        let did = h.last();
+                        if dd.is_ok() {
+                            if let Ok(p) = Pok::<CS>::from_bytes(&pb) {
+                                let v = proofverify::<CS>(h, &pk, &p, hdr.as_deref(), ph.as_deref(), Some(&dm), Some(&d));
+                                let vid = h.last();
+                                h.expect(!v.is_ok(), "C04.forgery", "a proof assembled from public information alone was accepted", &[did, vid]);
+                            }
+                        }
+                    }
+                }
+            }
+        }
+    }
+}
+
+pub fn c04<CS: BbsCiphersuite>(h: &mut H)
+where
+    CS::Expander: for<'a> ExpandMsg<'a>,
+{
+    let thorough = h.tier_thorough;
+    forgeries::<CS>(h);
+    let nproofs = if thorough { 8 } else { 2 };
+    for k in 0..nproofs {
+        let (sk, pk) = rand_keypair::<CS>(h);
+        let (_sk2, pk2) = rand_keypair::<CS>(h);
+        let l = [4usize, 2, 6, 1, 5, 3, 8, 7][k % 8];
+        let msgs = distinct_msgs(h, l);
+        let hdr = rand_header(h);
+        let ph = rand_header(h);
+        let s = match sign::<CS>(h, &sk, &pk, hdr.as_deref(), Some(&msgs)).ok() {
+            Some(s) => s.to_bytes(),
+            None => continue,
+        };
+        let mut d = rand_subset(h, l);
+        if d.is_empty() && l > 1 {
+            d.push(0);
+        }
+        if d.len() == l && l > 1 {
+            d.pop();
+        }
+        let p = match honest_proof::<CS>(h, &pk, &s, hdr.as_deref(), ph.as_deref(), &msgs, &d, true) {
+            Some(p) => p,
+            None => continue,
+        };
+        let pb = p.to_bytes();
+        let dm = pick_msgs(&msgs, &d);
+        let u = l - d.len();
+        // statement edits
+        for i in 0..d.len() {
+            let mut m = dm.clone();
+            m[i].push(1);
+            expect_reject::<CS>(h, "dmsg_edit", &pk, &pb, hdr.as_deref(), ph.as_deref(), &m, &d);
+            // move the message to an undisclosed position
+            if let Some(&free) = (0..l).filter(|x| !d.contains(x)).collect::<Vec<_>>().first() {
+                let mut d2 = d.clone();
+                d2[i] = free;
+                let mut pairs: Vec<(usize, Vec<u8>)> = d2.iter().cloned().zip(dm.iter().cloned()).collect();
+                pairs.sort();
+                let d3: Vec<usize> = pairs.iter().map(|p| p.0).collect();
+                let m3: Vec<Vec<u8>> = pairs.iter().map(|p| p.1.clone()).collect();
+                expect_reject::<CS>(h, "index_move", &pk, &pb, hdr.as_deref(), ph.as_deref(), &m3, &d3);
+            }
+            if d.len() > 1 && i + 1 < d.len() {
+                let mut m = dm.clone();
+                m.swap(i, i + 1);
+                expect_reject::<CS>(h, "dmsg_swap", &pk, &pb, hdr.as_deref(), ph.as_deref(), &m, &d);
+            }
+        }
+        if !d.is_empty() {
+            // drop one disclosed message (changes R, hence L = U + R)
+            expect_reject::<CS>(h, "drop_disclosed", &pk, &pb, hdr.as_deref(), ph.as_deref(), &dm[1..].to_vec(), &d[1..].to_vec());
+        }
+        let mut h1 = hdr.clone().unwrap_or_default();
+        h1.push(7);
+        expect_reject::<CS>(h, "hdr", &pk, &pb, Some(&h1), ph.as_deref(), &dm, &d);
+        let mut p1 = ph.clone().unwrap_or_default();
+        p1.push(7);
+        expect_reject::<CS>(h, "ph", &pk, &pb, hdr.as_deref(), Some(&p1), &dm, &d);
+        expect_reject::<CS>(h, "ph_hdr_swapped", &pk, &pb, Some(&p1), Some(&h1), &dm, &d);
+        expect_reject::<CS>(h, "other_pk", &pk2, &pb, hdr.as_deref(), ph.as_deref(), &dm, &d);
+        // truncation / extension by whole scalars
+        if u > 0 {
+            let mut t = pb[..240 + 32 * (u - 1)].to_vec();
+            t.extend_from_slice(&pb[pb.len() - 32..]);
+            expect_reject::<CS>(h, "truncate_scalar", &pk, &t, hdr.as_deref(), ph.as_deref(), &dm, &d);
+        }
+        let mut t = pb[..pb.len() - 32].to_vec();
+        t.extend_from_slice(&[0u8; 32]);
+        t.extend_from_slice(&pb[pb.len() - 32..]);
+        expect_reject::<CS>(h, "extend_scalar", &pk, &t, hdr.as_deref(), ph.as_deref(), &dm, &d);
+        // +-k on every scalar
+        for off in (144..pb.len()).step_by(32) {
+            let mut arr = [0u8; 32];
+            arr.copy_from_slice(&pb[off..off + 32]);
+            let sc = Scalar::from_be_bytes(&arr).unwrap() + Scalar::ONE;
+            let mut t = pb.clone();
+            t[off..off + 32].copy_from_slice(&sc.to_be_bytes());
+            expect_reject::<CS>(h, "scalar_plus_1", &pk, &t, hdr.as_deref(), ph.as_deref(), &dm, &d);
+        }
+        // bit flips
+        let nbits = pb.len() * 8;
+        let bits: Vec<usize> = if thorough {
+            (0..nbits).collect()
+        } else {
+            let mut b = vec![0, 1, 2, 383, 384, 768, 1151, 1152, 1153, nbits - 1, nbits - 256];
+            for _ in 0..29 {
+                b.push(h.rng.below(nbits as u64) as usize);
+            }
+            b
+        };
+        for bit in bits {
+            expect_reject::<CS>(h, "bitflip", &pk, &flip(&pb, bit), hdr.as_deref(), ph.as_deref(), &dm, &d);
+        }
+        // through the blind interface
+        if let Ok(pp) = Pok::<CS>::from_bytes(&pb) {
+            let v = blindproofverify::<CS>(h, &pk, &pp, hdr.as_deref(), ph.as_deref(), Some(l), Some(&dm), None, Some(&d), None);
+            h.expect(!v.is_ok(), "C04.cross_iface", "plain proof verifies through the blind interface", &[h.last()]);
+        }
+    }
+}
